@@ -15,6 +15,7 @@ mod c18;
 mod c19;
 mod probe;
 mod viewgen;
+mod temporal;
 mod foreign;
 mod c10;
 mod c11;
